@@ -57,34 +57,61 @@ func (c *Ctx) literalBounds(rule string) {
 				if !ok {
 					continue
 				}
-				fromNumber := false
-				var num ssa.Value
+				// where the size is judged: here, or - when it is a parameter of an unexported helper - at every call site
+				type site struct {
+					fn  *ssa.Function
+					blk *ssa.BasicBlock
+					v   ssa.Value
+				}
+				sites := []site{{f, ms.Block(), ms.Len}}
+				var par *ssa.Parameter
 				engine.Backward(ms.Len, engine.FlowOpts{}, func(x ssa.Value) bool {
-					if call, ok := x.(*ssa.Call); ok {
-						if sc := call.Call.StaticCallee(); sc != nil && numberFuncs[sc] {
-							fromNumber = true
-						}
-					}
-					if ex, ok := x.(*ssa.Extract); ok {
-						num = ex
+					if pp, ok := x.(*ssa.Parameter); ok && pp.Parent() == f {
+						par = pp
 					}
 					return true
 				})
-				if !fromNumber {
-					continue
+				if par != nil && f.Parent() == nil && f.Object() != nil && !f.Object().Exported() {
+					ix := engine.ParamIndex(f, par)
+					if callers := P.CallersOf(f); ix >= 0 && len(callers) > 0 {
+						sites = nil
+						for _, cs := range callers {
+							if ix < len(cs.Common().Args) {
+								sites = append(sites, site{cs.Fn, cs.Instr.Block(), cs.Common().Args[ix]})
+							}
+						}
+					}
 				}
-				n++
-				key := c.name(f) + "|make-from-number"
-				// bounds proved from the conditions that dominate the allocation - in this function or in a
-				// validating helper whose nil-error edge dominates it (linear-inequality entailment)
-				sizeVal := num
-				if sizeVal == nil {
-					sizeVal = ms.Len
+				for _, st := range sites {
+					fromNumber := false
+					var num ssa.Value
+					engine.Backward(st.v, engine.FlowOpts{}, func(x ssa.Value) bool {
+						if call, ok := x.(*ssa.Call); ok {
+							if sc := call.Call.StaticCallee(); sc != nil && numberFuncs[sc] {
+								fromNumber = true
+							}
+						}
+						if ex, ok := x.(*ssa.Extract); ok {
+							num = ex
+						}
+						return true
+					})
+					if !fromNumber {
+						continue
+					}
+					n++
+					key := c.name(st.fn) + "|make-from-number"
+					// bounds proved from the conditions that dominate the allocation - in this function or in a
+					// validating helper whose nil-error edge dominates it (linear-inequality entailment)
+					sizeVal := num
+					if sizeVal == nil {
+						sizeVal = st.v
+					}
+					upper := engine.EntailedAt(st.fn, st.blk, sizeVal, 64<<20, true, P.IsOwn)
+					lower := engine.EntailedAt(st.fn, st.blk, sizeVal, 1, false, P.IsOwn)
+					R.Check(upper, rule, key+"|upper-bound", P.Pos(ms.Pos()), "allocation size from the client is capped by a constant", "a buffer whose size is a number sent by the client is allocated without a dominating upper bound: one command can make the server allocate gigabytes")
+					R.Check(lower, rule, key+"|lower-bound", P.Pos(ms.Pos()), "zero-length literals are rejected before the buffer is filled", "a literal of size 0 reaches make([]byte, 0) and Scanner.ConsumeBytes, which writes dst[0] unconditionally: index out of range panic in the reader goroutine kills the process")
 				}
-				upper := engine.EntailedAt(f, ms.Block(), sizeVal, 64<<20, true, P.IsOwn)
-				lower := engine.EntailedAt(f, ms.Block(), sizeVal, 1, false, P.IsOwn)
-				R.Check(upper, rule, key+"|upper-bound", P.Pos(ms.Pos()), "allocation size from the client is capped by a constant", "a buffer whose size is a number sent by the client is allocated without a dominating upper bound: one command can make the server allocate gigabytes")
-				R.Check(lower, rule, key+"|lower-bound", P.Pos(ms.Pos()), "zero-length literals are rejected before the buffer is filled", "a literal of size 0 reaches make([]byte, 0) and Scanner.ConsumeBytes, which writes dst[0] unconditionally: index out of range panic in the reader goroutine kills the process")
 			}
 		}
 	}
@@ -170,13 +197,79 @@ func (c *Ctx) readerErrorPath(rule string) {
 				R.Fail(rule, c.name(f)+"|parse-error-edge", P.Pos(parse.Pos()), "the error of Parser.Parse() is not tested")
 				continue
 			}
+			// the resynchronisation may live in a helper of the session package that reports whether the reader can carry
+			// on (bool) or failed (error): every return of it that did not pass ConsumeInvalidInput says "stop"; then the
+			// "carry on" edge of the test of its result is a resynchronised edge
+			cutEdges := map[engine.Edge]bool{}
+			helperResync := 0
+			for _, cs := range engine.Calls(f) {
+				h := cs.Common().StaticCallee()
+				hcall, isCall := cs.Instr.(*ssa.Call)
+				if cs.Instr.Parent() != f || h == nil || !isCall || len(h.Blocks) == 0 || h.Parent() != nil || engine.RelPkg(P.OwnPkgPath(h)) != "internal/session" || h.Signature.Results().Len() != 1 {
+					continue
+				}
+				inner := map[ssa.Instruction]bool{}
+				for _, ics := range engine.Calls(h) {
+					if sc := ics.Common().StaticCallee(); sc != nil && ics.Instr.Parent() == h && engine.ShortName(sc) == "ConsumeInvalidInput" {
+						inner[ics.Instr] = true
+					}
+				}
+				if len(inner) == 0 {
+					continue
+				}
+				isBool := h.Signature.Results().At(0).Type().String() == "bool"
+				isErr := h.Signature.Results().At(0).Type().String() == "error"
+				okHelper := isBool || isErr
+				for _, ret := range engine.Returns(h) {
+					if !engine.ReachesAvoiding(h, ret, inner, nil) {
+						continue
+					}
+					rv := ret.Results[0]
+					if isBool {
+						if bv, isK := engine.ConstBool(rv); !isK || bv {
+							okHelper = false
+						}
+					} else if isErr && engine.IsNilConst(rv) {
+						okHelper = false
+					}
+				}
+				if !okHelper || hcall.Referrers() == nil {
+					continue
+				}
+				for _, b := range f.Blocks {
+					iff := engine.IfOf(b)
+					if iff == nil {
+						continue
+					}
+					cond, neg := engine.StripNot(iff.Cond)
+					if isBool && cond == ssa.Value(hcall) {
+						carryOn := 0
+						if neg {
+							carryOn = 1
+						}
+						cutEdges[engine.Edge{From: b, Succ: carryOn}] = true
+						helperResync++
+					}
+					if bo, ok := cond.(*ssa.BinOp); ok && isErr && (bo.Op == token.NEQ || bo.Op == token.EQL) && ((bo.X == ssa.Value(hcall) && engine.IsNilConst(bo.Y)) || (bo.Y == ssa.Value(hcall) && engine.IsNilConst(bo.X))) {
+						carryOn := 1
+						if bo.Op == token.EQL {
+							carryOn = 0
+						}
+						if neg {
+							carryOn = 1 - carryOn
+						}
+						cutEdges[engine.Edge{From: b, Succ: carryOn}] = true
+						helperResync++
+					}
+				}
+			}
 			bad := false
 			for _, s := range sends {
-				if engine.ReachesAvoidingFrom(errBlock, 0, s, cut, nil) {
+				if engine.ReachesAvoidingFrom(errBlock, 0, s, cut, cutEdges) {
 					bad = true
 				}
 			}
-			R.Check(!bad && len(cut) > 0 && len(sends) > 0, rule, c.name(f)+"|resync-before-handover", P.Pos(parse.Pos()),
+			R.Check(!bad && len(cut)+helperResync > 0 && len(sends) > 0, rule, c.name(f)+"|resync-before-handover", P.Pos(parse.Pos()),
 				"a failed line is consumed up to its end before the error is handed to the session loop",
 				"after a parse error the reader can hand the result on (or read the next command) without consuming the rest of the offending line: the remainder of the line is parsed as further commands and answered with extra completion results")
 		}
